@@ -14,3 +14,4 @@ UNITS = [CK.unit_c05_sweep(), CK.unit_k1_witness(), CK.unit_is_unique_check_row(
 from contracts import fields as FL
 UNITS += [CK.unit_is_unique_init(), CK.unit_distinct_count_init(), CK.unit_audit_first_token(), FL.unit_field_name_index()]
 UNITS += [VIO.unit_raw_rows().also("C05")]
+UNITS += [VIO.unit_reader_close()]
